@@ -460,6 +460,11 @@ class CryptographyEngine(api.CryptographicEngine):
                 "Invalid key bytes for the specified encryption algorithm."
             )
 
+        # Stream ciphers (RC4) have no block cipher mode: ignore a mode named
+        # in the parameters instead of padding for it or treating it as GCM.
+        if encryption_algorithm in self._no_mode_needed:
+            cipher_mode = None
+
         is_gcm_mode = cipher_mode == enums.BlockCipherMode.GCM
         if not is_gcm_mode and auth_additional_data is not None:
             raise exceptions.InvalidField(
@@ -819,6 +824,11 @@ class CryptographyEngine(api.CryptographicEngine):
             raise exceptions.CryptographicFailure(
                 "Invalid key bytes for the specified decryption algorithm."
             )
+
+        # Stream ciphers (RC4) have no block cipher mode: ignore a mode named
+        # in the parameters instead of unpadding for it or treating it as GCM.
+        if decryption_algorithm in self._no_mode_needed:
+            cipher_mode = None
 
         is_gcm_mode = cipher_mode == enums.BlockCipherMode.GCM
         if auth_additional_data is not None and not is_gcm_mode:
